@@ -24,7 +24,7 @@ EXPLANATION = (
     "passes to the loaded class a *copy* of the registered kwargs updated with the caller's kwargs after the copy, "
     "never writes to the spec or the registry, and raises for unknown ids with a message built from the registry; (R4) "
     "the shipped register(...) calls have literal, pairwise distinct ids that match the regex, entry points that "
-    "resolve to Environment subclasses of the tree, and literal kwargs keys that are constructor parameters. Not "
+    "resolve to Environment subclasses of the tree, and literal kwargs keys that are constructor parameters; make hands the caller's id to parse_env_id unchanged; (R6) no function of jumanji.registration writes module-level state other than the registry store (no memo / cache in load or make); (R7) no environment, generator or wrapper constructor stores a value derived from one argument into another argument's object (the registered kwargs objects are shared by all make(id) calls). Not "
     "decided: that instantiation succeeds at runtime (datasets, devices); behaviour equality of two make() calls is "
     "C02's purity premise plus R3.")
 
@@ -197,6 +197,152 @@ def _toplevel_walk(mod):
         if isinstance(st, (ast.FunctionDef, ast.AsyncFunctionDef, ast.ClassDef)):
             continue
         yield from ast.walk(st)
+
+
+CONTAINER_MUT = MUT | {"append", "add", "extend", "insert", "remove", "discard", "appendleft", "sort", "reverse"}
+
+
+def _root_name(e):
+    while isinstance(e, (ast.Attribute, ast.Subscript)):
+        e = e.value
+    return e.id if isinstance(e, ast.Name) else None
+
+
+def module_state_writes(m, registry_short: str):
+    """Writes by any function of module `m` into a module-level name of `m` (subscript / attribute store, mutating
+    container method, `global` rebinding), the sanctioned registry store in register() excepted."""
+    out = []
+    scanned = 0
+    for node in ast.walk(m.tree):
+        if not isinstance(node, (ast.FunctionDef, ast.AsyncFunctionDef)):
+            continue
+        scanned += 1
+        a = node.args
+        local = {x.arg for x in a.args + a.kwonlyargs + a.posonlyargs} | ({a.vararg.arg} if a.vararg else set()) | ({a.kwarg.arg} if a.kwarg else set())
+        globs = set()
+        for n in ast.walk(node):
+            if isinstance(n, ast.Global):
+                globs |= set(n.names)
+        for n in ast.walk(node):
+            if isinstance(n, (ast.Assign, ast.AnnAssign, ast.AugAssign)):
+                for t in (n.targets if isinstance(n, ast.Assign) else [n.target]):
+                    for x in ast.walk(t):
+                        if isinstance(x, ast.Name) and isinstance(x.ctx, ast.Store) and x.id not in globs:
+                            local.add(x.id)
+            elif isinstance(n, (ast.For, ast.comprehension)):
+                for x in ast.walk(n.target):
+                    if isinstance(x, ast.Name):
+                        local.add(x.id)
+        for n in ast.walk(node):
+            hit = None
+            if isinstance(n, (ast.Assign, ast.AugAssign, ast.AnnAssign, ast.Delete)):
+                for t in (n.targets if isinstance(n, (ast.Assign, ast.Delete)) else [n.target]):
+                    r = _root_name(t)
+                    if isinstance(t, (ast.Subscript, ast.Attribute)) and r in m.assigns and r not in local:
+                        hit = (r, "store " + ast.unparse(t)[:60])
+                    elif isinstance(t, ast.Name) and t.id in globs and t.id in m.assigns:
+                        hit = (t.id, "global rebinding of " + t.id)
+            elif isinstance(n, ast.Call) and isinstance(n.func, ast.Attribute) and n.func.attr in CONTAINER_MUT:
+                r = _root_name(n.func.value)
+                if r in m.assigns and r not in local:
+                    hit = (r, "call " + ast.unparse(n.func)[:60])
+            if hit and not (node.name == "register" and hit[0] == registry_short and hit[1].startswith("store ")):
+                g = hit[0]
+                # is the global read anywhere in the module apart from this very statement?
+                reads = [x for x in ast.walk(m.tree) if isinstance(x, ast.Name) and x.id == g and isinstance(x.ctx, ast.Load)
+                         and not any(x is y for y in ast.walk(n))]
+                verdict = False
+                if not reads:
+                    verdict = None      # write-only (a log): cannot influence any result
+                elif isinstance(n, ast.Assign) and len(n.targets) == 1 and isinstance(n.targets[0], ast.Subscript) \
+                        and isinstance(n.targets[0].slice, ast.Name) and n.targets[0].slice.id in {x.arg for x in a.args + a.kwonlyargs} \
+                        and len(a.args + a.kwonlyargs) == 1:
+                    verdict = None      # memo keyed by the function's whole (single) argument: sound iff the function is pure; not decided
+                out.append((node, n, hit[1], verdict))
+    return scanned, out
+
+
+def constructor_argument_leaks(tree, select):
+    """[(class, node, text)]: inside __init__, a store into an object that came in as a constructor argument (directly or
+    through the self attribute that keeps it) of a value that depends on a DIFFERENT constructor argument.  The
+    registered kwargs of make() are shared by every make(id) call: such a store lets one call's overrides change what
+    later calls build."""
+    out = []
+    n_cls = 0
+    for q, ci in sorted(tree.classes.items()):
+        if not select(ci):
+            continue
+        init = ci.methods.get("__init__")
+        if init is None:
+            continue
+        n_cls += 1
+        a = init.node.args
+        params = [x.arg for x in a.args[1:] + a.kwonlyargs]
+        pset = set(params)
+        # self.<attr> -> parameters its value mentions; and which attrs alias an argument object
+        attr_params: Dict[str, set] = {}
+        for st in ast.walk(init.node):
+            if isinstance(st, (ast.Assign, ast.AnnAssign)) and getattr(st, "value", None) is not None:
+                for t in (st.targets if isinstance(st, ast.Assign) else [st.target]):
+                    if isinstance(t, ast.Attribute) and isinstance(t.value, ast.Name) and t.value.id == "self":
+                        names = {x.id for x in ast.walk(st.value) if isinstance(x, ast.Name)} & pset
+                        attr_params.setdefault(t.attr, set()).update(names)
+
+        def alias_params(v) -> set:
+            """parameters whose object `v` may be (v = param | param or D | D if param is None else param)."""
+            if isinstance(v, ast.Name) and v.id in pset:
+                return {v.id}
+            if isinstance(v, ast.BoolOp):
+                return set().union(*[alias_params(x) for x in v.values])
+            if isinstance(v, ast.IfExp):
+                return alias_params(v.body) | alias_params(v.orelse)
+            return set()
+
+        attr_alias: Dict[str, set] = {}
+        for st in ast.walk(init.node):
+            if isinstance(st, (ast.Assign, ast.AnnAssign)) and getattr(st, "value", None) is not None:
+                for t in (st.targets if isinstance(st, ast.Assign) else [st.target]):
+                    if isinstance(t, ast.Attribute) and isinstance(t.value, ast.Name) and t.value.id == "self":
+                        attr_alias.setdefault(t.attr, set()).update(alias_params(st.value))
+
+        def owner_params(target) -> set:
+            """argument objects a store target `x.f`, `self.g.f`, `x[k]` writes into."""
+            base = target.value
+            chain = []
+            while isinstance(base, (ast.Attribute, ast.Subscript)):
+                chain.append(base)
+                base = base.value
+            if not isinstance(base, ast.Name):
+                return set()
+            if base.id in pset:
+                return {base.id}
+            if base.id == "self" and chain:
+                first = chain[-1]
+                if isinstance(first, ast.Attribute):
+                    return set(attr_alias.get(first.attr, set()))
+            return set()
+
+        def value_params(v) -> set:
+            ps = {x.id for x in ast.walk(v) if isinstance(x, ast.Name)} & pset
+            for x in ast.walk(v):
+                if isinstance(x, ast.Attribute) and isinstance(x.value, ast.Name) and x.value.id == "self":
+                    ps |= attr_params.get(x.attr, set())
+            return ps
+
+        for st in ast.walk(init.node):
+            if isinstance(st, (ast.Assign, ast.AugAssign, ast.AnnAssign)) and getattr(st, "value", None) is not None:
+                for t in (st.targets if isinstance(st, ast.Assign) else [st.target]):
+                    if not isinstance(t, (ast.Attribute, ast.Subscript)):
+                        continue
+                    if isinstance(t, ast.Attribute) and isinstance(t.value, ast.Name) and t.value.id == "self":
+                        continue
+                    owners = owner_params(t)
+                    if not owners:
+                        continue
+                    others = value_params(st.value) - owners
+                    if others:
+                        out.append((ci, st, f"{ast.unparse(t)[:50]} = {ast.unparse(st.value)[:60]}: writes into the argument object {sorted(owners)} a value that depends on the argument(s) {sorted(others)}"))
+    return n_cls, out
 
 
 def check(tier: str) -> Result:
@@ -380,6 +526,28 @@ def check(tier: str) -> Result:
             ok = uses_registry
             why = f"raises under `{txt(hit[0], 3, 60)}` false in {fn.name}; message lists the registry: {uses_registry}"
     res.add("C18.R3", f.loc(), "registration.make", "unknown ids raise with a message listing the registered ids", ok, why)
+    # the id that is parsed, canonicalised and looked up is the caller's id itself (no pre-processing such as splitting
+    # off a prefix: every character of the allowed alphabet belongs to the name)
+    pcalls = [(vars_, node) for cf, vars_, caller, node, _ in v3.callsites if cf is fns["parse_env_id"]]
+    p0 = fns["parse_env_id"].params[0]
+    idflow = bool(pcalls) and all(uncopy(strip_cast(vs.get(p0))) is idp for vs, _ in pcalls if vs.get(p0) is not None) and all(vs.get(p0) is not None for vs, _ in pcalls)
+    res.add("C18.R3", f.loc(), "registration.make", "the id handed to parse_env_id is the caller's id unchanged", idflow,
+            f"{len(pcalls)} call(s) of parse_env_id from make" if idflow else f"parse_env_id receives {[txt(vs.get(p0), 4, 80) if vs.get(p0) is not None else None for vs, _ in pcalls]}, not the id parameter itself")
+    # ------------------------------------------------------------------ R6 module state of registration.py
+    scanned, mw = module_state_writes(m, REGQ.split(".")[-1])
+    for fn_node, node, hit, verdict in mw:
+        res.add("C18.R6", f"{m.relpath}:{node.lineno}", "registration." + fn_node.name, f"module-level state write: {hit}", verdict,
+                "jumanji.registration keeps exactly one piece of module state, the registry, written only by register(); any other memo or cache makes make()/load() depend on the history of earlier calls")
+    res.add("C18.R6", f"{m.relpath}:1", "registration", "no function of jumanji.registration writes module-level state other than the registry store in register", not [w for w in mw if w[3] is False],
+            f"{scanned} functions scanned")
+    # ------------------------------------------------------------------ R7 constructors do not leak one call's arguments into shared argument objects
+    n_ctor, leaks = constructor_argument_leaks(tree, lambda ci: ci.module.name.startswith("jumanji.environments.") or ci.module.name == "jumanji.wrappers")
+    for lci, node, text in leaks:
+        res.add("C18.R7", f"{lci.module.relpath}:{node.lineno}", short(lci.qual) + ".__init__", f"constructor stores into an argument object: {ast.unparse(node)[:70]}", False, text)
+    res.add("C18.R7", "jumanji/environments", "environment / generator / wrapper constructors", "no constructor writes a value derived from one argument into another argument's object", not leaks,
+            f"{n_ctor} constructors scanned (the registered kwargs objects are shared by every make(id))")
+    if n_ctor < 60:
+        raise AnalysisError(f"only {n_ctor} constructors scanned (hand-confirmed minimum 60)")
     # ------------------------------------------------------------------ R4 shipped ids
     init = tree.modules.get("jumanji")
     if init is None:
